@@ -2,7 +2,7 @@
 From Coq Require Import ZArith List Bool String.
 From Exactly Require Import Lib.Harness Model.Outcome Spec.C02.
 Import ListNotations.
-Open Scope Z_scope.
+Local Open Scope Z_scope.
 
 Lemma verdict_table_no_conf_failure mode ps : full_status_of None mode ps = doc_verdict mode ps.
 Proof. destruct mode, ps as [[]|]; reflexivity. Qed.
